@@ -339,5 +339,29 @@ def make_app(spec, calls, environs=None):
                 if spec.fail == "mid_body" and i == 1:
                     raise AppError("boom")
                 yield c
+
+        if spec.second == "exc_info_after_empty":
+            # headers are on the wire after the first (empty) item; the late start_response(exc_info) must
+            # re-raise, the application swallows that and carries on with the response it started
+            def gen2():
+                yield b""
+                try:
+                    raise AppError("late")
+                except AppError:
+                    try:
+                        start_response("500 Internal Server Error", [("Content-Type", "text/plain")], sys.exc_info())
+                    except AppError:
+                        pass
+                for c in spec.chunks:
+                    yield c
+            return gen2()
+        if spec.fail == "close_raises":
+            class It:
+                def __iter__(self_):
+                    return iter(list(spec.chunks))
+
+                def close(self_):
+                    raise AppError("close")
+            return It()
         return gen() if spec.fail == "mid_body" else list(spec.chunks)
     return app
